@@ -213,9 +213,9 @@ def judge(ctx, cases, meta, by, tso, label):
             bad.append((case, meta[ci - 1], "never-quiescent", []))
         elif verdicts != ["ok"]:
             merr = [v for v in verdicts if v.startswith("model:")]
-            if merr:
+            if merr and len(merr) == len([v for v in verdicts if v != "ok"]):
                 raise Infra("interpreter left its modelled range on %s: %s" % (case["name"], merr[0]))
-            worst = [v for v in verdicts if v != "ok"][0]
+            worst = [v for v in verdicts if v != "ok" and not v.startswith("model:")][0]
             bad.append((case, meta[ci - 1], worst, [v for v in vs if v["verdict"] != "ok"][:3]))
     ctx.cov["traces_validated_against_impl"] += len(cases)
 
@@ -297,7 +297,7 @@ def stress(ctx, tree, q):
     kinds = ["global", "ptr", "local", "member", "elem"]
     if q:
         kinds = [kinds[ctx.seed % 5], "member" if ctx.seed % 5 != 3 else "global"]
-    iters = 100000 if q else 1000000
+    iters = 100000 if q else 300000
 
     def one(w):
         f = "%s/stress%d.c" % (d, w)
@@ -340,7 +340,7 @@ def run(ctx):
     if "lost-update" not in {v["verdict"] for v in by.get(1, [])}:
         raise Infra("sensitivity control failed: TLC finds no lost update in a plain (non-atomic) `+=`")
     # 1. Level A on the generated domain (AtomicObj.tla: Lin is exactly its set of terminal states)
-    sc = dom if not q else vt.subsample(dom, ctx.seed, 12)
+    sc = dom if not q else vt.subsample(dom, ctx.seed, 13)
     cases, meta = make_cases(ctx, units, sc)
     ctx.phase("parsed %d cases" % len(cases))
     pf = os.path.join(ctx.scratch, "prog-levelA.json")
@@ -354,7 +354,7 @@ def run(ctx):
                     quiescent_outcomes=[(v["mem"], v["rets"]) for v in by.get(len(cases) // 2 + 1, [])][:4]))
     ctx.phase("sc batch")
     # 3. the same under x86-TSO store buffers
-    tso = dom if not q else vt.subsample([c for c in dom if c[3] in ("add", "postinc", "xchg", "cas", "casinc", "lock", "fxor")], ctx.seed + 3, 36)
+    tso = dom if not q else vt.subsample([c for c in dom if c[3] in ("add", "postinc", "xchg", "cas", "casinc", "lock", "fxor")], ctx.seed + 3, 37)
     tcases, tmeta = make_cases(ctx, units, tso)
     by = run_batch(ctx, tcases, True, "tso", workers=6 if q else 8)
     judge(ctx, tcases, tmeta, by, True, "tso")
